@@ -1247,7 +1247,10 @@ class ktime(Expression):
 
 
 class prandom(Expression):
-    """a function that returns the current ktime in ns"""
+    """a function that returns a pseudo random number"""
+    signed = False
+    fixed = False
+
     def __init__(self, ebpf):
         self.ebpf = ebpf
 
